@@ -22,10 +22,10 @@ TECH = {
  'C16': 'MIR error-discipline: every fallible result consumed; gate closes; unwrap audit; error-kind guards; error-edge rules of cleanup and append',
  'C17': 'MIR dominance in open + writer/reader string-table agreement + file-name predicate agreement + version/salt provenance in the administration calls',
  'C18': 'MIR dominance (lock first), provenance (locked file stored), confinement (unlock last), no-write-before-open in the offline entry points',
+ 'C19': 'value-provenance analysis of the vector and scalar page search (expression trees from reaching definitions, lane table for the SSE2 intrinsics) checked against the premises of three integer lemmas: lane wiring, shared shift/key terms, mask-to-position arithmetic, loop coverage, candidate always returned',
  'C20': 'MIR sibling agreement, error propagation, loop-carried move, version/salt provenance, checked close, ordering of reopen and file moves',
 }
 NA = {
- 'C19': 'bit-level agreement of the SSE2 page search with the scalar search over all pages/keys/positions is a value property; no structural clause is close to sufficient (needs enumeration/SMT, another family)',
 }
 def main():
     props = [json.loads(l) for l in open(os.path.join(HERE, 'properties.jsonl'))]
